@@ -42,6 +42,31 @@ func encState(p *secp256k1.Point) string {
 }
 
 func (w *World) aliasPattern(c *pointCall) string {
+	if len(c.pargs) > 6 {
+		// long lists: summarise (the full pattern would be a different,
+		// very long string for every call)
+		recvAt, dups := -1, 0
+		seen := map[int]bool{}
+		for i, a := range c.pargs {
+			if a == c.recv && recvAt < 0 {
+				recvAt = i
+			}
+			if seen[a] {
+				dups++
+			}
+			seen[a] = true
+		}
+		where := "recv-not-in-list"
+		switch {
+		case recvAt >= 256:
+			where = "recv-at-index>=256"
+		case recvAt >= 32:
+			where = "recv-at-index>=32"
+		case recvAt >= 0:
+			where = "recv-at-index<32"
+		}
+		return fmt.Sprintf("long-list(%d terms),%s,repeated-points", len(c.pargs), where)
+	}
 	pat := ""
 	for i, a := range c.pargs {
 		if a == c.recv {
